@@ -15,7 +15,7 @@ PROPS = [f"C{i:02d}" for i in range(1, 18)]
 
 
 def main():
-    dirs = sys.argv[1:] or sorted(os.path.join(V, "seeded", d) for d in os.listdir(os.path.join(V, "seeded")) if d.startswith("benign_") and os.path.isdir(os.path.join(V, "seeded", d)))
+    dirs = sys.argv[1:] or sorted(os.path.join(V, "seeded", d) for d in os.listdir(os.path.join(V, "seeded")) if d.startswith("benign") and os.path.isdir(os.path.join(V, "seeded", d)))
     if subprocess.run(["git", "-C", REPO, "status", "--porcelain"], capture_output=True, text=True).stdout.strip():
         print("refusing: /repo working tree is not clean")
         return 2
